@@ -162,11 +162,12 @@ def _reader_form(body):
                 if not n.args and not n.keywords:
                     forms.add("()")
                 elif len(n.args) == 1 and isinstance(n.args[0], ast.Starred):
-                    forms.add("*")
+                    forms.add("*" if isinstance(n.args[0].value, ast.Name) else "*<transformed sequence>")
                 elif len(n.args) == 1 and not n.keywords:
                     forms.add("v")
                 elif not n.args and len(n.keywords) == 1 and n.keywords[0].arg is None:
-                    forms.add("**")
+                    # the mapping must be handed over as it is: its keys are the constructor's parameter names
+                    forms.add("**" if isinstance(n.keywords[0].value, ast.Name) else "**<transformed mapping>")
                 else:
                     forms.add("?")
     return forms, raises
